@@ -63,9 +63,15 @@ def changed_positions(patch):
             else:
                 old += 1
     return pos
-seeds = sys.argv[1:] or sorted(d for d in os.listdir(ROOT + "/seeded") if re.match(r"^C\d\d-[A-Z]$", d))
-for s in seeds:
-    pos = changed_positions(os.path.join(ROOT, "seeded", s, "patch.diff"))
+args = sys.argv[1:]
+if args and args[0] == "--patch":
+    # matrix_plan.py --patch <file.diff> : checks that read code the patch touches
+    seeds = [("patch", args[1])]
+else:
+    seeds = [(d, os.path.join(ROOT, "seeded", d, "patch.diff"))
+             for d in (args or sorted(d for d in os.listdir(ROOT + "/seeded") if re.match(r"^C\d\d-[A-Z]$", d)))]
+for s, pf in seeds:
+    pos = changed_positions(pf)
     hit = set()
     for pid in sorted(check_funcs):
         for rel, lines in pos.items():
@@ -76,5 +82,6 @@ for s in seeds:
                         hit.add(pid)
                 elif rel in check_files[pid]:
                     hit.add(pid)          # module / class level: constants, imports, new functions
-    hit.add(s.split("-")[0])
+    if s != "patch":
+        hit.add(s.split("-")[0])
     print("%s: %s" % (s, " ".join(sorted(hit))))
